@@ -32,7 +32,7 @@ if [ "$WHAT" = refactors ] || [ "$WHAT" = all ]; then
     N=$(basename "$D")
     case $N in
       C01) CS="C01 C04 C11";; C02) CS="C02 C05 C07 C08";; C03) CS="C03 C05 C09 C14 C04";; C10) CS="C10 C19 C07";;
-      C12) CS="C12";; C13) CS="C13 C14";; C14) CS="C20 C14 C09 C03";; C17) CS="C15 C16 C17 C18";; C06) CS="C06 C01 C11";; *) CS="";;
+      C12) CS="C12";; C13) CS="C13 C14";; C14) CS="C20 C14 C09 C03";; C17) CS="C15 C16 C17 C18";; C06) CS="C06 C01 C11";; R2a) CS="C01 C04 C11 C07 C12";; R2b) CS="C02 C05 C07 C08 C11 C04";; R2c) CS="C03 C05 C09 C14 C15 C07";; R2d) CS="C10 C19 C20 C09";; R2e) CS="C15 C16 C17 C18";; R2f) CS="C13 C14 C12";; *) CS="";;
     esac
     run "refactor-$N" "$D/patch.diff" 0 $CS
   done
